@@ -30,7 +30,14 @@ def used(ex, name: str) -> None:
 
 
 def install(ex) -> None:
+    from pyvc import fxview
     ex.assumed_used = set()
+    ex.fstring_hook = fxview.fstring_hook
+    ex.strip_hook = fxview.strip_hook
+    ex.regex_sub_hook = fxview.regex_sub_hook
+    ex.library["ghost.fx_meaning"] = fxview.g_fx_meaning
+    ex.library["ghost.fx_wellformed"] = fxview.g_fx_wellformed
+    ex.library["ghost.fx_is_key"] = fxview.g_fx_is_key
 
 
 # ---------------------------------------------------------------------------------------------- logging (S5)
@@ -75,3 +82,109 @@ def _regex_sub(ex, st, args, kwargs, fn):
             return r
     f = z3.Function(f"re_sub_{abs(hash(fn.data)) % 100000}", z3.StringSort(), z3.StringSort())
     return [(st, SV(mk_s(f(Sc.sv(s.t))), "str"))]
+
+
+# ---------------------------------------------------------------------------------------------- misc builtins
+@lib("super")
+def _super(ex, st, args, kwargs, fn):
+    return [(st, Opaque("super"))]
+
+
+@lib("super.__init__()")
+def _super_init(ex, st, args, kwargs, fn):
+    return [(st, sv_none())]
+
+
+@lib("inject.instance")
+def _inject_instance(ex, st, args, kwargs, fn):
+    used(ex, "A-INJECT inject.instance returns the bound singleton")
+    c = args[0]
+    return [(st, Opaque(f"inst:{c.name if isinstance(c, ClassV) else 'object'}"))]
+
+
+# ---------------------------------------------------------------------------------------------- lark (A-LARK-*)
+FOLD_RESULT: Dict[str, Any] = {}   # transformer class -> PSpec of the value a fold can produce (set by side-cars)
+EXTRA_FOLD_RAISES: Dict[str, List[str]] = {}
+
+
+def transformer_callbacks(ex, cls: str) -> List[str]:
+    """qualified names of the callbacks of a transformer class that are under contract"""
+    out = []
+    for c in ex.repo.mro(cls):
+        ci = ex.repo.cls(c)
+        if not ci:
+            continue
+        for m in ci.methods:
+            q = f"{ci.module.name}:{ci.name}.{m}"
+            if q in ex.contracts and not m.startswith("__"):
+                out.append(q)
+    return out
+
+
+def lark_transform(ex, st, args, kwargs, fn):
+    """A-LARK-FOLD: Transformer.transform(tree) is a bottom-up fold over the callbacks of the transformer; an
+    Exception raised in a callback arrives as VisitError(orig_exc=...), a BaseException that is not an Exception
+    passes unchanged.  What a callback can raise is taken from the callbacks' contracts."""
+    used(ex, "A-LARK-FOLD")
+    ref = fn.bound
+    cls = st.heap[ref.oid].cls
+    raised: List[str] = list(EXTRA_FOLD_RAISES.get(cls, []))
+    for q in transformer_callbacks(ex, cls):
+        for k in ex.contracts[q].raises:
+            if k not in raised:
+                raised.append(k)
+    outs = []
+    for k in raised:
+        s = st.fork()
+        msg = SV(mk_s(ex.fresh("msg", z3.StringSort())), "str")
+        s2, inner = ex.raise_(s, k, msg, error_message=msg)
+        if "Exception" in ex.repo.mro(k):
+            outs.append(ex.raise_(s2, "VisitError", msg, orig_exc=inner.ref))
+        else:
+            outs.append((s2, inner))
+    spec = FOLD_RESULT.get(cls)
+    if spec is None:
+        raise Unsupported(f"no fold result specification for transformer {cls}")
+    res = spec().make(ex, st, "fold_result")
+    st.ghost["fold_root"] = res
+    outs.append((st, res))
+    return outs
+
+
+LIBRARY["lark.Transformer.transform"] = lark_transform
+
+
+def _tree_scan_values(ex, st, args, kwargs, fn):
+    """A-LARK-TREE: scan_values(pred) yields every leaf satisfying pred once, in order: here the Token leaves"""
+    used(ex, "A-LARK-TREE")
+    from pyvc.contracts import Inst, SeqOf, Str
+    tree = fn.bound
+    key = ("tokens", id(tree) if not isinstance(tree, Opaque) else tree.tag)
+    if key not in st.ghost:
+        seq = SeqOf(lambda ex_, s_, name, i: Inst("Token", value=Str(), type=Str()).make(ex_, s_, name)).make(
+            ex, st, "tokens")
+        st.ghost[key] = st.heap[seq.oid].lt
+    return [(st, st.ghost[key])]
+
+
+ATTR_LIBRARY["inst:Tree.scan_values"] = lambda ex, st, v, attr: [(st, BuiltinV("lark.Tree.scan_values", v))]
+LIBRARY["lark.Tree.scan_values"] = _tree_scan_values
+
+
+def _lark_parse(ex, st, args, kwargs, fn):
+    """A-LARK-PARSE: Lark.parse(text) (Earley, dynamic lexer) returns a Tree or raises UnexpectedEOF /
+    UnexpectedCharacters; TypeError for a non-str argument"""
+    used(ex, "A-LARK-PARSE")
+    outs = []
+    text = args[0] if args else None
+    for k in ("UnexpectedEOF", "UnexpectedCharacters"):
+        outs.append(ex.raise_(st.fork(), k, SV(mk_s(ex.fresh("msg", z3.StringSort())), "str")))
+    if not (isinstance(text, SV) and text.ty == "str"):
+        outs.append(ex.raise_(st.fork(), "TypeError", sv_str("expected a str")))
+    st.ghost["parsed_text"] = text
+    outs.append((st, Opaque("inst:Tree")))
+    return outs
+
+
+LIBRARY["global:ahbicht.expressions.condition_expression_parser._parser.parse()"] = _lark_parse
+LIBRARY["global:ahbicht.expressions.ahb_expression_parser._parser.parse()"] = _lark_parse
